@@ -527,6 +527,13 @@ def c07_cells():
                     for ctx in (CTX if (op == ':=' or nest == 'same-block') else ['top', 'fun']):
                         add(f'local-{form}{"-fin" if fin else ""}:{op}:{nest}@{ctx}', f"local-{form}:{'fin' if fin else 'mut'}:{op}:{nest}:{ctx}",
                             stmts, ctx, not fin, {'form': form, 'fin': fin, 'op': op, 'nest': nest})
+    # a declaration with a type and no value on a line of its own, assigned later (twice)
+    for fin in (False, True):
+        for second in (':=', '+='):
+            stmts = [f"def {'fin ' if fin else ''}x: Int", 'x := 7', f'x {second} 1']
+            for ctx in ['top', 'fun', 'method', 'loop', 'then']:
+                add(f'declared-without-value{"-fin" if fin else ""}:{second}@{ctx}', f"declared-without-value:{'fin' if fin else 'mut'}:{second}:{ctx}", stmts, ctx, None if not fin else False,
+                    {'form': 'declared-without-value', 'fin': fin, 'op': second})
     # fields: class argument / body field, fin or not, through instance variable (fin or not), through self / fin self
     for fld, fin_field in (('cf', True), ('cm', False), ('bf', True), ('bm', False)):
         for recv_fin in (False, True):
@@ -612,6 +619,10 @@ def c07_cells():
         'for-variable': ['for x in 0 .. 2 do', '    print("b")'],
         'match-binder': ['match 1', '    x =>', '        print("b")'],
         'comprehension': ['def zl := [x | x in 0 .. 3]'],
+        'comprehension-statement': ['[x | x in [1, 2, 3]]'],
+        'set-comprehension-statement': ['{x | x in [1, 2, 3]}'],
+        'dict-comprehension-statement': ['{x => x | x in [1, 2, 3]}'],
+        'comprehension-match-subject': ['match [x | x in [1, 2, 3]]', '    other => print("m")'],
     }
     for dname, dl in DECLS.items():
         for outer, must in (('def fin x := 1', False), (None, False), ('def x := 1', True)):
@@ -764,6 +775,24 @@ def fraise2(k: Int) -> Int raise [{K}, {K2}] =>
             out.append((f'{K}:{pos}', f'scope:{pos}', pre + '\n' + '\n'.join(top) + '\n\nprint("end")\n', False, {'raised': K, 'ctx': pos, 'source': 'call'}))
         top = ['def subject(k: Int) -> Int =>'] + ind(['fraise(k) handle', '    e: E1 => print("h")', 'fraise(k) handle', '    e: E1 => print("h2")', '0'], 1)
         out.append((f'{K}:two-handles', 'scope:two-handles', pre + '\n' + '\n'.join(top) + '\n\nprint("end")\n', True, {'raised': K, 'ctx': 'two-handles', 'source': 'call'}))
+    # exception classes with TWO parents: every ancestor along either parent protects
+    MP = 'class Tag\nclass Aux\nclass E5(msg: Str): E1(msg), Tag\nclass E6(msg: Str): Aux, E3(msg)\nclass E7(msg: Str): E5(msg), Aux\n'
+    for K, anc in (('E5', ['E5', 'E1', 'Exception']), ('E6', ['E6', 'E3', 'Exception']), ('E7', ['E7', 'E5', 'E1', 'Exception'])):
+        for how in ('handled', 'declared'):
+            for prot in ('E1', 'E2', 'E3', 'E5', 'Exception'):
+                must = prot in anc
+                if how == 'handled':
+                    body = [f'raise {K}("m")' + ' handle' if False else f'fraisek(k) handle', f'    e0: {prot} => print("h")']
+                    decl = ''
+                else:
+                    body = ['fraisek(k)']; decl = f' raise [{prot}]'
+                src = (c08_prelude('E1') + MP + f'def fraisek(k: Int) -> Int raise [{K}] =>\n    if k > 0 then\n        raise {K}("m")\n    k\n\n'
+                       + f'def subject(k: Int) -> Int{decl} =>\n' + '\n'.join(ind(body + ['0'], 1)) + '\n\nprint("end")\n')
+                out.append((f'{K}:two-parents:{how}-by-{prot}', f"two-parents:{how}:{'covered' if must else 'uncovered'}", src, must, {'raised': K, 'ctx': 'two-parents', 'source': 'call', how: prot}))
+    # a class local to a function: statements of its body run when the function runs
+    for decl, must in (('', False), (' raise [E1]', True)):
+        src = c08_prelude('E1') + f'def subject(k: Int) -> Int{decl} =>\n    class Local\n        def z: Int := fraise(0)\n    k\n\nprint("end")\n'
+        out.append((f"local-class-field-initialiser:{'declared' if must else 'unprotected'}", f"local-class:{'declared' if must else 'unprotected'}", src, must, {'raised': 'E1', 'ctx': 'local-class', 'source': 'call'}))
     # only subclasses of Exception may be declared
     for bad, must in (('NotExc', False), ('Int', False), ('Str', False), ('E1', True), ('Exception', True), ('Boom', True)):
         pre = c08_prelude('E1')
